@@ -1,28 +1,45 @@
-(* C09 Connector.  PROVED for all sizes: step type / termination causes (C11), rewards (C08), discounts (C03), masks (C04),
-   illegal = no-op (C05), per-agent movement rule (C06).
-   Full statement (comment; _partial): Physical c s -> wf c s acts -> Forall (0 <= a <= 4) acts ->
-     step c s acts = ref_step c s acts
-   where step is the code's algorithm (all agents step on the OLD grid, per-agent grids filtered and max-joined, an agent
-   whose POSITION value vanished from the join is reverted and its old cell bumped by POSITION - PATH) and ref_step the
-   sequential rule "highest id first, every agent judged on the current grid, loser stays".  The equality is checked by
-   evaluation on examples below (a 3-way contest) and by correspondence: both step and ref_step are compared with the
-   real environment on every transition of the harness, with 2-, 3- and 4-way contests constructed directly. *)
-Require Import JV.Base.Prelude JV.Base.JaxIndex JV.Base.Codec JV.Base.TimeStep JV.Model.Connector JV.Proofs.Connector.
-Theorem C09_Connector_step_type_partial c s acts :
+(* C09 Connector, PROVED for all sizes, every Physical state and every in-spec joint action:
+     step c s acts = ref_step c s acts            (the max-join collision theorem)
+   where step is the code's algorithm (all agents step on the OLD grid, per-agent grids filtered by agent index and
+   joined by max, an agent whose POSITION value vanished from the join is reverted and its old cell bumped by
+   POSITION - PATH) and ref_step the published rule stated sequentially: agents are processed from the HIGHEST id down,
+   every agent is judged on the current grid, a legal move is carried out, anything else leaves agent and grid alone
+   ("higher id wins, loser stays"); +connected reward on connection, timestep reward per unconnected agent, per-agent
+   discount 0 for connected or blocked agents, LAST when all agents are done or at the limit, mask = table of legal
+   moves.  The equality covers the successor state, the timestep and the masks, for ANY number of agents contending
+   for one cell (proof: both sides equal a closed description -- agent k wins iff its move is legal on the old grid and
+   no higher id proposes the same cell; Proofs/Connector_Join.v, Proofs/Connector_Step.v).
+   Both step and ref_step are additionally compared with the real environment on every transition of the harness. *)
+Require Import JV.Base.Prelude JV.Base.JaxIndex JV.Base.Codec JV.Base.TimeStep JV.Model.Connector JV.Proofs.Connector
+  JV.Proofs.Connector_Step.
+Theorem C09_Connector_step_is_reference_step c s acts :
+  Physical c s -> wf c s acts -> in_spec acts -> step c s acts = ref_step c s acts.
+Proof. exact (step_eq_ref_step c s acts). Qed.
+Theorem C09_Connector_simultaneous_is_sequential c s acts :
+  Physical c s -> wf c s acts -> in_spec acts ->
+  step_agents (gsz c) (nag c) (grid s) (agents s) acts = seq_agents (gsz c) (grid s) (agents s) acts.
+Proof. exact (step_agents_is_seq c s acts). Qed.
+Theorem C09_Connector_step_type c s acts :
   st (tsof c s acts) = if fin c s acts then LAST else MID.
 Proof. exact (step_type c s acts). Qed.
-Theorem C09_Connector_agents_partial c s acts k :
+Theorem C09_Connector_agents c s acts k :
   wf c s acts -> 0 <= k < nag c -> dims (gsz c) (grid s) -> 0 <= znth 0 acts k <= 4 ->
   let o := znth dflt (agents s) k in let n := znth dflt (agents (next c s acts)) k in
   n = o \/ (aid n = aid o /\ astart n = astart o /\ atarget n = atarget o /\ 1 <= znth 0 acts k
             /\ apos n = padd (apos o) (dir (znth 0 acts k)) /\ in_grid (gsz c) (apos n) = true
             /\ (cell (grid s) (apos n) = EMPTY \/ cell (grid s) (apos n) = tgtv (aid o)) /\ connected o = false).
 Proof. exact (agent_step_cases c s acts k). Qed.
-Print Assumptions C09_Connector_agents_partial.
+Print Assumptions C09_Connector_step_is_reference_step.
+Print Assumptions C09_Connector_simultaneous_is_sequential.
+Print Assumptions C09_Connector_agents.
 Example C09_Connector_nonvacuous :
   let c := mkC 3 3 9 100 (-3) in
-  step c ex_s3 [3; 2; 4] = ref_step c ex_s3 [3; 2; 4]
+  (Physical c ex_s3 /\ wf c ex_s3 [3; 2; 4] /\ in_spec [3; 2; 4])
+  /\ step c ex_s3 [3; 2; 4] = ref_step c ex_s3 [3; 2; 4]
   /\ grid (fst (fst (step c ex_s3 [3; 2; 4]))) = [[0; 2; 0]; [5; 8; 7]; [3; 6; 9]]
   /\ map apos (agents (fst (fst (step c ex_s3 [3; 2; 4])))) = [(0, 1); (1, 0); (1, 1)]
   /\ Physical_b c ex_s3 = true /\ Physical_b c (fst (fst (step c ex_s3 [3; 2; 4]))) = true.
-Proof. exact ex_contest. Qed.
+Proof.
+  cbv zeta. split; [|exact ex_contest].
+  split; [apply Physical_b_spec; vm_compute; reflexivity|]. split; [vm_compute; repeat split; discriminate|repeat constructor; lia].
+Qed.
